@@ -46,6 +46,7 @@ def rtd_case(draw):
             'A': A0 * draw(_f(0.95, 1.05)), 'B': B0 * draw(_f(0.95, 1.05)), 'C': C0 * draw(_f(0.95, 1.05)),
             'I': draw(_f(1e-4, 1e-2)), 'wires': k, 'lead': draw(st.one_of(st.just(0.0), _f(0.0, 10.0))), 'T': temps,
             'via_file': draw(st.booleans()), 'chain': [draw(st.integers(0, 3)), draw(st.sampled_from([2.0, 0.5, -4.0, 1024.0])), draw(st.sampled_from([0.0, 0.0, 1.0]))],
+            'raw32': draw(st.integers(0, 4)) == 0,
             # a second sensor (different Callendar-Van Dusen coefficients) measured with the same circuit: its scaling is
             # evaluated on the SAME voltages right after the first one
             'alt': [A0 * draw(_f(0.95, 1.05)), B0 * draw(_f(0.95, 1.05)), C0 * draw(_f(0.95, 1.05))]}
@@ -73,6 +74,7 @@ def thermistor_case(draw):
             'A': draw(_f(1.0e-3, 1.5e-3)), 'B': draw(_f(2.0e-4, 3.0e-4)), 'C': draw(_f(5e-8, 2e-7)),
             'offset': draw(st.sampled_from([0.0, 273.15, 25.0])),
             'lnR': draw(st.lists(_f(math.log(30.0), math.log(3e5)), min_size=1, max_size=6)),
+            'raw32': draw(st.integers(0, 4)) == 0,
             'via_file': draw(st.booleans()), 'chain': [draw(st.integers(0, 3)), draw(st.sampled_from([2.0, 0.5, -4.0, 1024.0])), draw(st.sampled_from([0.0, 0.0, 1.0]))]}
 
 
@@ -146,6 +148,28 @@ def rtd_invert(c, volts):
     return out
 
 
+def invert_monotone(f, v, lo, hi):
+    """x in [lo, hi] with f(x) = v for a strictly monotone f (either direction), by bisection"""
+    inc = f(hi) > f(lo)
+    for _ in range(200):
+        mid = 0.5 * (lo + hi)
+        if (f(mid) < v) == inc:
+            lo = mid
+        else:
+            hi = mid
+    return 0.5 * (lo + hi)
+
+
+def truth_from_voltage(c, v):
+    """the quantity that produces voltage v according to the forward law (numerical inverse, independent of the library)"""
+    if c['kind'] == 'rtd':
+        return rtd_invert(c, [v])[0]
+    if c['kind'] == 'thermistor':
+        lnr = invert_monotone(lambda x: thermistor_forward(c, x)[0], v, math.log(1.0), math.log(1e7))
+        return thermistor_forward(c, lnr)[1]
+    return invert_monotone(lambda e: strain_forward(c, e), v, -2e-2, 2e-2)
+
+
 def _scale_obj(c):
     from nptdms import scaling
     if c['kind'] == 'rtd':
@@ -179,23 +203,34 @@ class InputModified(Exception):
 
 
 def run_scaling(c, volts):
-    """apply the scaling directly or through a generated file; returns float64 array"""
+    """apply the scaling directly or through a generated file; returns (float64 result, float64 voltages the sensor scale saw)"""
     v = np.array(volts, dtype=np.float64)
+    raw_t = 'f32' if c.get('raw32') else 'f64'
+    raw_dt = np.float32 if c.get('raw32') else np.float64
     if not c.get('via_file'):
-        arr = v.copy()
-        out = np.array(_scale_obj(c).scale(arr), dtype=np.float64)
-        if arr.tobytes() != v.tobytes():
-            raise InputModified('scale() overwrote its input array: %r -> %r' % (v[:3], arr[:3]))
-        return out
+        given = v.astype(raw_dt)
+        arr = given.copy()
+        sc = _scale_obj(c)
+        out = np.array(sc.scale(arr), dtype=np.float64)
+        if arr.tobytes() != given.tobytes():
+            raise InputModified('scale() overwrote its input array: %r -> %r' % (given[:3], arr[:3]))
+        # the same scaling object evaluated again (a channel re-uses its scaling object for every read)
+        again = np.array(sc.scale(given.copy()), dtype=np.float64)
+        third = np.array(sc.scale(given.copy()), dtype=np.float64)
+        if again.tobytes() != out.tobytes() or third.tobytes() != out.tobytes():
+            raise InputModified('repeated evaluation with one scaling object differs: %r, then %r, then %r' % (
+                out[:3], again[:3], third[:3]))
+        return out, given.astype(np.float64)
     from nptdms import TdmsFile
     p = make_path('g', 'c')
     # Linear scales in front of the sensor scale (input source = a scale index instead of the raw data)
     shape, m, c0 = c.get('chain') or [0, 2.0, 0.0]
     graph, raw_for = SC.chain_before(_graph(c)[0], shape, m, c0)
-    v = np.array(raw_for(v), dtype=np.float64)
+    v = np.array(raw_for(v), dtype=np.float64).astype(raw_dt)
+    seen = v.astype(np.float64) if not shape else np.asarray(SC.eval_graph(graph, v, upto=graph[-1]['src'])[0], dtype=np.float64)
     seg = {'be': False, 'interleaved': False,
-           'entries': [{'path': p, 'hdr': 'full', 'type': 'f64', 'n': len(v), 'props': SC.graph_props(graph, True)}],
-           'active': [[p, 'f64', len(v)]], 'nchunks': 1, 'data': {p: [v.tobytes()]}}
+           'entries': [{'path': p, 'hdr': 'full', 'type': raw_t, 'n': len(v), 'props': SC.graph_props(graph, True)}],
+           'active': [[p, raw_t, len(v)]], 'nchunks': 1, 'data': {p: [v.tobytes()]}}
     data, _i, _l = encode_file({'segments': [seg]})
     tf = TdmsFile.read(io.BytesIO(data))
     ch = tf['g']['c']
@@ -206,7 +241,7 @@ def run_scaling(c, volts):
         raise InputModified('raw_data after a scaled read is %r, the file holds %r' % (raw[:3], v[:3]))
     if first.tobytes() != again.tobytes():
         raise InputModified('second scaled read %r differs from the first %r' % (again[:3], first[:3]))
-    return np.asarray(ch[:], dtype=np.float64)
+    return np.asarray(ch[:], dtype=np.float64), seen
 
 
 def check(case, rec):
@@ -241,7 +276,11 @@ def check(case, rec):
     else:
         return check_poly_table(case, rec)
     try:
-        got = run_scaling(c, volts)
+        got, seen = run_scaling(c, volts)
+        if c.get('raw32'):
+            # the measured voltage is a float32: the quantity that produces THAT voltage is the truth
+            rec.label('float32_voltage')
+            truth = [truth_from_voltage(c, float(x)) for x in seen]
     except InputModified as e:
         rec.violation('%s:raw_modified' % kind, str(e))
         return
@@ -253,7 +292,9 @@ def check(case, rec):
         c2 = dict(c, A=c['alt'][0], B=c['alt'][1], C=c['alt'][2], alt=None)
         want2 = rtd_invert(c2, volts)
         try:
-            got2 = run_scaling(c2, volts)
+            got2, seen2 = run_scaling(c2, volts)
+            if c2.get('raw32'):
+                want2 = rtd_invert(c2, [float(x) for x in seen2])
         except InputModified as e:
             rec.violation('rtd:raw_modified', str(e))
             return
@@ -308,7 +349,14 @@ def check_poly_table(case, rec):
             # through the property interface, as a file would define it
             graph = [{'type': 'Polynomial', 'coeffs': list(case['coeffs']), 'src': None, 'explicit_src': False, 'size_prop': True}]
             props = {name: value for (name, _pt, value) in SC.graph_props(graph, True)}
-            got = scaling.get_scaling(props, {}, {}).scale(_Raw(x.copy()))
+            ms = scaling.get_scaling(props, {}, {})
+            got = np.array(ms.scale(_Raw(x.copy())), dtype=np.float64)
+            for k in (2, 3):
+                rep = np.array(ms.scale(_Raw(x.copy())), dtype=np.float64)
+                if rep.tobytes() != got.tobytes():
+                    rec.violation('poly:repeat', 'evaluation %d with the same scaling object gives %r, the first gave %r '
+                                  '(coefficients %r)' % (k, rep[:3], got[:3], case['coeffs']))
+                    return
             direct = scaling.PolynomialScaling(list(case['coeffs']), 0xFFFFFFFF).scale(x.copy())
             if np.asarray(direct, dtype=np.float64).tobytes() != np.asarray(got, dtype=np.float64).tobytes():
                 rec.violation('poly:formula', 'polynomial %r defined through properties gives %r, the class gives %r' % (
@@ -322,7 +370,13 @@ def check_poly_table(case, rec):
                 pre_sorted, scaled_sorted = pre[::-1], scaled[::-1]
             else:
                 pre_sorted, scaled_sorted = pre, scaled
-            got = scaling.TableScaling(np.array(pre), np.array(scaled), 0xFFFFFFFF).scale(x.copy())
+            ts_obj = scaling.TableScaling(np.array(pre), np.array(scaled), 0xFFFFFFFF)
+            got = np.array(ts_obj.scale(x.copy()), dtype=np.float64)
+            rep = np.array(ts_obj.scale(x.copy()), dtype=np.float64)
+            if rep.tobytes() != got.tobytes():
+                rec.violation('table:repeat', 'second evaluation with the same scaling object gives %r, the first gave %r' % (
+                    rep[:3], got[:3]))
+                return
             want = SC.clamped_interp(x, scaled_sorted, pre_sorted)
             mag = np.full(x.shape, max(abs(v) for v in pre)) * 4
             # the same table defined through properties, fed by NI_Scale[0] (a Linear scale), i.e. input source 0
